@@ -642,9 +642,13 @@ func (p *parser) summarizeOperator(pipe, keyword Token) (*SummarizeOperator, err
 		By:      nullSpan(),
 	}
 
+	// trailingComma is true if the column list ended with a comma,
+	// which is only permitted directly before 'by'.
+	trailingComma := false
 	for {
 		col, err := p.summarizeColumn()
 		if isNotFound(err) {
+			trailingComma = len(op.Cols) > 0
 			break
 		}
 		if col != nil {
@@ -666,7 +670,7 @@ func (p *parser) summarizeOperator(pipe, keyword Token) (*SummarizeOperator, err
 
 	sep, ok := p.next()
 	if !ok {
-		if len(op.Cols) == 0 {
+		if len(op.Cols) == 0 || trailingComma {
 			return op, &parseError{
 				source: p.source,
 				span:   sep.Span,
@@ -677,7 +681,7 @@ func (p *parser) summarizeOperator(pipe, keyword Token) (*SummarizeOperator, err
 	}
 	if sep.Kind != TokenBy {
 		p.prev()
-		if len(op.Cols) == 0 {
+		if len(op.Cols) == 0 || trailingComma {
 			return op, &parseError{
 				source: p.source,
 				span:   sep.Span,
